@@ -644,8 +644,12 @@ async def prepared(env, step, make):
 
 
 async def op_setflag(env, ctx, step):
-    awaitable = await prepared(env, step, lambda: env.objects['flags'][step['f']].set(
-        step.get('v', True)))
+    flag = env.objects['flags'][step['f']]
+    if step.get('via_inverse'):
+        # the same change made through the inverse handle: (~flag).set(not value)
+        awaitable = await prepared(env, step, lambda: (~flag).set(not step.get('v', True)))
+    else:
+        awaitable = await prepared(env, step, lambda: flag.set(step.get('v', True)))
     # the shadow valuation follows the program's own actions, in the same turn as the call
     env.shadow['flags'][step['f']] = bool(step.get('v', True))
     await awaitable
